@@ -29,3 +29,26 @@ pub fn main(_args: &[String], w: &mut dyn Write) {
     writeln!(w, "Definition doc_default_markdown_total_timeout : option N := {}.", dm.total_timeout.map_or("None".to_string(), |d| format!("Some {}", d.as_millis()))).unwrap();
     writeln!(w, "Definition doc_default_cram_total_timeout : option N := {}.", dc.total_timeout.map_or("None".to_string(), |d| format!("Some {}", d.as_millis()))).unwrap();
 }
+
+fn ranges(pred: &dyn Fn(char) -> bool) -> String {
+    let mut out = vec![];
+    let mut start: Option<u32> = None;
+    for cp in 0..=0x110000u32 {
+        let v = char::from_u32(cp).map_or(false, |c| pred(c));
+        match (v, start) {
+            (true, None) => start = Some(cp),
+            (false, Some(s)) => { out.push(format!("({}, {})", s, cp - 1)); start = None; }
+            _ => {}
+        }
+    }
+    format!("[{}]", out.join("; "))
+}
+
+/// Unicode tables as the crates scrut links compute them
+pub fn unicode(_args: &[String], w: &mut dyn Write) {
+    use unicode_categories::UnicodeCategories;
+    writeln!(w, "(* char::is_other() of the unicode_categories crate scrut links: inclusive code point ranges *)").unwrap();
+    writeln!(w, "Definition other_ranges : list (N * N) := {}.", ranges(&|c| c.is_other())).unwrap();
+    writeln!(w, "(* char::is_whitespace() of the Rust standard library *)").unwrap();
+    writeln!(w, "Definition whitespace_ranges : list (N * N) := {}.", ranges(&|c| c.is_whitespace())).unwrap();
+}
